@@ -1,6 +1,45 @@
 package sim
 
 func init() {
+	regProp(&propDef{
+		id:     "C01",
+		gen:    func(seed uint64, th bool) *Plan { return genFramePlan(seed, th) },
+		chk:    newFrameChecker,
+		runner: runFrameTwin,
+		rule:   "twin runs of one plan: 1-3 pipelined connections (depth 1-8) on disjoint key spaces send 1-40 commands of all families with binary arguments (empty, CR, LF, CRLF, NUL, non-UTF-8, RESP look-alikes, values around 8 KiB and above 64 KiB, unknown commands and error-provoking arguments containing CRLF); once as whole commands with depth 1, once cut into tape-chosen fragments (incl. 1-byte pieces), coalesced into shared segments, with short reads and clock jumps; class all-offsets cuts one frame at every byte offset; oracles: every reply parses as exactly one RESP value in order with nothing left over, replies equal the per-connection reference model (binary read-back), and the reply bytes of the two runs are identical; non-trivial = at least one request was reassembled from several reads or shared a segment with another; distinct = distinct scheduler event sequence",
+		nontrivial: func(res *RunResult) bool {
+			return res.Extra["reassembled"] >= 1
+		},
+		quickRuns:       2500,
+		thoroughRuns:    150000,
+		quickSeconds:    60,
+		thoroughSeconds: 900,
+		level:           "exploration",
+		explanation:     "The all-offsets class enumerates every split offset of one frame (and some two-cut variants); that sub-space is complete per run, the space of frames is sampled.",
+		assumptions: []string{
+			"replies that legitimately vary between runs (random members, TTLs, CLIENT/INFO text) are excluded from the byte comparison and checked by shape",
+			"one connection's commands touch only its own key prefix, so per-connection sequential semantics apply although connections run concurrently",
+		},
+	})
+	regProp(&propDef{
+		id:   "C15",
+		gen:  func(seed uint64, th bool) *Plan { return genProtoPlan(seed, th) },
+		chk:  newProtoChecker,
+		rule: "twin connections A (RESP2) and B (RESP3) run the same 10-50 commands of all families on two databases with equal state, taking turns; HELLO (2, 3, unsupported versions, garbage, SETNAME) is issued at tape-chosen positions on A, B or a bystander; oracles: down(RESP3 reply) equals the RESP2 reply (unordered for map/set), a RESP2 connection never receives a RESP3 type, HELLO changes exactly the issuing connection and only when valid; non-trivial = at least one compared reply pair contained a RESP3-only type; distinct = distinct scheduler event sequence",
+		nontrivial: func(res *RunResult) bool {
+			return res.Extra["resp3-typed-compared"] >= 1
+		},
+		quickRuns:       2500,
+		thoroughRuns:    150000,
+		quickSeconds:    60,
+		thoroughSeconds: 900,
+		level:           "exploration",
+		explanation:     "Relational oracle (no model needed): the two protocols are compared against each other on equal state; the schedule dimension only decides when HELLO lands.",
+		assumptions: []string{
+			"down-conversion as listed by the property: map -> flat key/value array, set -> array, double/big number/verbatim -> bulk string (verbatim without its 3-letter format prefix), boolean -> 0/1, null -> nil; HRANDFIELD WITHVALUES may nest pairs under RESP3",
+			"replies that vary by chance are compared by shape only",
+		},
+	})
 	for _, id := range []string{"C09", "C10"} {
 		id := id
 		regProp(&propDef{
